@@ -16,7 +16,7 @@ CFG = {
     "prop_file": "Properties/C18.v",
     "run_modules": ["Verif.C18.Run"],
     "coq_dirs": ["C18"],
-    "n": {"quick": 3000, "thorough": 120000},
+    "n": {"quick": 3000, "thorough": 75000},
     "shard": 500,
     "level": "proof",
     "rule": ("histories of 1..60 ops (set/get/has/delete/clear/newIter/next/size) over a per-case pool of 2..12 of 16 "
@@ -66,7 +66,7 @@ CFG = {
                  "ECMAScript SameValueZero (goja_same_is_svz), hence om_refines_js / om_refines_js_raw for every history over well-formed "
                  "JS values, a drained fresh iterator lists the live entries in insertion order, and the symbol-property table is the "
                  "same structure (Reflect.ownKeys symbol order). 23 theorems, no axioms. The model is tied "
-                 "to /repo on every run by running 3000 (quick) / 120000 (thorough) generated histories through the raw orderedMap, JS "
+                 "to /repo on every run by running 3000 (quick) / 75000 (thorough) generated histories through the raw orderedMap, JS "
                  "Map, JS Set (+Go Export) and symbol-property tables and comparing every returned value with the model evaluated by vm_compute; "
                  "about 1 case in 40 observes, for all ordered pairs of differently produced pool values, SameAs / hash equality of the "
                  "keys as stored and each value's internal representation, checked against SameValueZero on classes and on denotations, "
